@@ -233,6 +233,12 @@ func JSON(v any) string {
 	return string(b)
 }
 
+// Violations returns what the context has recorded so far (used by the fuzz target).
+func (c *Ctx) Violations() []*Violation { return c.res.Violations }
+
+// Counter returns one counter of the context.
+func (c *Ctx) Counter(name string) int { return c.res.Counters[name] }
+
 // ScratchCtx returns a context whose observations are discarded (baseline recording runs).
 func ScratchCtx(prop, tier string, seed int64) *Ctx {
 	return &Ctx{Property: prop, Tier: tier, Seed: seed, Engine: "scratch", Rand: rand.New(rand.NewSource(CaseSeed(seed, prop, "scratch", 0))),
